@@ -27,15 +27,12 @@ Qed.
 
 Lemma jstep_inv : forall pr s0 hd st x,
   wf_project pr = true ->
-  negb (valid_pkgs (cfg_of pr x) && under (j_out x) (p_core pr)
-        && exists_b (fst st) (out_dir (cfg_of pr x)) && j_force x) = true ->
   J (snd st) -> paths_ok pr s0 hd st ->
   J (snd (jstep pr st x)) /\ paths_ok pr s0 (hd ++ [x]) (jstep pr st x).
 Proof.
-  intros pr s0 hd st x Hw Hg HJ HP. unfold jstep. destruct (valid_pkgs (cfg_of pr x)) eqn:Hv.
+  intros pr s0 hd st x Hw HJ HP. unfold jstep. destruct (valid_pkgs (cfg_of pr x)) eqn:Hv.
   - cbn [fst snd]. split.
-    + apply J_step_with; [apply valid_shared; exact Hv | | exact HJ].
-      rewrite inside_layout_of. simpl in Hg. apply negb_true_iff in Hg. exact Hg.
+    + apply J_step_with; [apply valid_shared; exact Hv | exact HJ].
     + intros p Hin Hs.
       destruct (generate_paths (cfg_of pr x) None (fst st) p (wf_project_cfg pr x Hw) Hin Hs) as [H|H].
       * destruct (HP p H Hs) as [H1|H1]; [left; exact H1 | right; apply allowed_by_mono; exact H1].
@@ -44,29 +41,26 @@ Proof.
 Qed.
 
 Lemma jrun_inv : forall pr s0 h hd st,
-  wf_project pr = true -> jguard_F11b pr st h = true ->
+  wf_project pr = true ->
   J (snd st) -> paths_ok pr s0 hd st ->
   J (snd (fold_left (jstep pr) h st)) /\ paths_ok pr s0 (hd ++ h) (fold_left (jstep pr) h st).
 Proof.
-  intros pr s0 h. induction h as [|x h IH]; intros hd st Hw Hg HJ HP; simpl in *.
+  intros pr s0 h. induction h as [|x h IH]; intros hd st Hw HJ HP; simpl in *.
   - rewrite app_nil_r. auto.
-  - apply andb_true_iff in Hg. destruct Hg as [Hg1 Hg2].
-    destruct (jstep_inv pr s0 hd st x Hw Hg1 HJ HP) as [HJ' HP'].
+  - destruct (jstep_inv pr s0 hd st x Hw HJ HP) as [HJ' HP'].
     replace (hd ++ x :: h) with ((hd ++ [x]) ++ h) by (rewrite <- app_assoc; reflexivity).
     apply IH; auto.
 Qed.
 
-(* JOINT HISTORY THEOREM (no injected faults): for every project, every initial file system and every
-   history of calls (any packages — invalid ones are rejected —, force on/off, any specs) that meets
-   the F11b guard: every generated client finds its exception classes, every claimed client exists,
-   and every path strictly below the project root was there initially or is an allowed path of one
-   of the calls. *)
+(* JOINT HISTORY THEOREM (no injected faults): for every project, every initial file system and EVERY
+   history of calls: every generated client finds its exception classes, every claimed client exists, and
+   every path strictly below the project root was there initially or is an allowed path of one of the calls. *)
 Theorem joint_history : forall pr s0 h,
-  wf_project pr = true -> jguard_F11b pr (s0, Registry.init) h = true ->
+  wf_project pr = true ->
   Joint pr s0 h (jrun pr s0 h).
 Proof.
-  intros pr s0 h Hw Hg. unfold Joint, jrun.
-  destruct (jrun_inv pr s0 h [] (s0, Registry.init) Hw Hg J_init) as [HJ HP].
+  intros pr s0 h Hw. unfold Joint, jrun.
+  destruct (jrun_inv pr s0 h [] (s0, Registry.init) Hw J_init) as [HJ HP].
   - intros p Hin _. left. exact Hin.
   - split; [apply J_Works; exact HJ | exact HP].
 Qed.
@@ -83,7 +77,7 @@ Definition h_ex : list jcall :=
    jc [[]; []] [200] true; jc [c1] [200; 404] true].
 Definition s0_ex : fs := [(sR, Dir); (sR ++ [[75]], File 1)].
 Lemma joint_nonvacuous :
-  wf_project pr_ex = true /\ jguard_F11b pr_ex (s0_ex, Registry.init) h_ex = true
+  wf_project pr_ex = true
   /\ aliases (snd (jrun pr_ex s0_ex h_ex)) = Some [404; 409]
   /\ length (clients (snd (jrun pr_ex s0_ex h_ex))) = 2%nat
   /\ (length (fst (jrun pr_ex s0_ex h_ex)) > 40)%nat
